@@ -15,14 +15,14 @@
   `joint_histories` restates the history invariants over the joint machine of the `feeflow` engine, whose
   alphabet contains every entry point the engine sends (also direct `CollectFees` / `AggregateFees`).
 
-  FINDING (`epoch_ledger_per_asset_fails`).  The clause "claimed + available = total for each asset" is
-  FALSE in the code for an epoch that holds several assets: `claim` creates `epoch.claimed` from the first
-  asset it pays and afterwards only increases entries that exist, so rewards in the epoch's other assets
-  are paid and subtracted from `available` but never recorded as claimed.  What does hold, and is proved
-  (`epoch_ledger`): for EVERY asset `claimed + available ≤ total` and nothing is lost on the funds side
-  (`payout_eq_ledger_delta`, `holds_available`, `expire_once`); the equation holds for the asset that
-  `claimed` records, for every asset while nothing has been claimed, and for every epoch that holds at
-  most one asset (= every epoch of a history without a switch of the distribution asset).
+  LEDGER CLAUSE AT FULL STRENGTH (`epoch_ledger`, `epoch_ledger_per_asset`).  For every asset of every epoch,
+  also of an epoch that holds several assets, `claimed + available = total` until the epoch expires:
+  `claim` records every reward with `asset::aggregate_assets(epoch.claimed, [reward])`, which adds to the
+  entry of that asset or creates it.  (Up to the fix recorded in known_findings.json under `fixed:
+  property=C09 … claim recorded rewards in epoch.claimed only for the first asset paid` the code created
+  `claimed` from the first asset paid and never added an entry for another one; the equation was then
+  refuted for multi-asset epochs and only `≤` was provable.)  After expiry (`available` emptied, the
+  remainder moved to the new epoch) `claimed ≤ total` remains.
 -/
 import WW.Proofs.Distributor
 import WW.Proofs.Collector
@@ -33,50 +33,60 @@ open WW WW.Distributor
 /-- a record of `s'` that is not a record of `s`: an epoch the operation modified -/
 def Changed (s s' : St) (e : Epoch) : Prop := e ∈ s'.epochs ∧ e ∉ s.epochs
 
-/-- the ledger clause as proved, for one epoch and one asset -/
+/-- the ledger clause of the property, for one epoch and one asset: `claimed + available = total` -/
 def LedgerClause (e : Epoch) (a : Nat) : Prop :=
-  amtOf a e.claimed + amtOf a e.avail ≤ amtOf a e.total ∧
-  ((e.claimed = [] ∨ a ∈ keys e.claimed ∨ e.total.length ≤ 1) →
-    amtOf a e.claimed + amtOf a e.avail = amtOf a e.total)
+  amtOf a e.claimed + amtOf a e.avail = amtOf a e.total
 
-theorem ledgerClause_of_ok {e : Epoch} (h : LedgerOk e) (hne : e.avail ≠ []) (a : Nat) : LedgerClause e a := by
-  obtain ⟨_, hc⟩ := h hne
-  refine ⟨hc.2 a, fun hh => ?_⟩
-  cases hh with
-  | inl h0 => exact claimedOk_recorded hc a (Or.inl h0)
-  | inr hh =>
-    cases hh with
-    | inl h1 => exact claimedOk_recorded hc a (Or.inr h1)
-    | inr h2 => exact claimedOk_single hc h2 a
+theorem ledgerClause_of_ok {e : Epoch} (h : LedgerOk e) (hne : e.avail ≠ []) (a : Nat) : LedgerClause e a :=
+  (h.2 hne).2.2.2 a
 
 /-- **epoch_ledger** — over ALL histories from instantiation (any grace period ≥ 1 with increases, any
-    initial distribution asset with switches in mid-history), for every epoch whose `available` has not
-    been emptied by expiry and for EVERY asset `a`: `claimed_a + available_a ≤ total_a`, with equality
-    whenever nothing has been claimed from the epoch yet, or `a` is the asset its `claimed` records, or the
-    epoch holds at most one asset.  Moreover every asset is listed at most once in `available`. -/
+    initial distribution asset with switches in mid-history), for EVERY epoch on record (inside or outside
+    the grace window) and EVERY asset `a`: `claimed_a + available_a ≤ total_a`, and as long as the epoch's
+    `available` has not been emptied by expiry, `claimed_a + available_a = total_a` — also when the epoch
+    holds several assets.  Moreover every asset is listed at most once in `available` and in `claimed`, and
+    `claimed` only lists assets of `total`. -/
 theorem epoch_ledger (cfg : Cfg) (g d : Nat) (hg : 1 ≤ g) (ops : List Op) :
-    ∀ e ∈ (reach cfg (St.init g d) ops).epochs, e.avail ≠ [] →
-      (keys e.avail).Nodup ∧ ∀ a, LedgerClause e a :=
-  fun e he hne =>
-    ⟨((reach_inv cfg ops _ (inv_init g d hg)).ledger e he hne).1,
-     ledgerClause_of_ok ((reach_inv cfg ops _ (inv_init g d hg)).ledger e he) hne⟩
+    ∀ e ∈ (reach cfg (St.init g d) ops).epochs,
+      (∀ a, amtOf a e.claimed + amtOf a e.avail ≤ amtOf a e.total) ∧
+      (e.avail ≠ [] →
+        (keys e.avail).Nodup ∧ (keys e.claimed).Nodup ∧ (∀ k ∈ keys e.claimed, k ∈ keys e.total) ∧
+        ∀ a, LedgerClause e a) :=
+  fun e he =>
+    have h := (reach_inv cfg ops _ (inv_init g d hg)).ledger e he
+    ⟨h.1, fun hne => ⟨(h.2 hne).1, (h.2 hne).2.1, (h.2 hne).2.2.1, ledgerClause_of_ok h hne⟩⟩
 
 /-- the same from any state that satisfies the invariant (e.g. a migrated deployment) -/
 theorem epoch_ledger_from (cfg : Cfg) (s : St) (hI : Inv s) (ops : List Op) :
     ∀ e ∈ (reach cfg s ops).epochs, e.avail ≠ [] → ∀ a, LedgerClause e a :=
   fun e he hne => ledgerClause_of_ok ((reach_inv cfg ops s hI).ledger e he) hne
 
-/-- **epoch_ledger, single-asset epochs** — the clause at full strength, "claimed + available = total for
-    each asset", for every live epoch that holds at most one asset. -/
+/-- an EXPIRED epoch (`available` emptied when it left the grace window; every epoch outside the window is
+    one, `expired_stay_empty`): what remains of the clause is `claimed_a ≤ total_a` for every asset — the
+    difference is what was moved to the epoch created at that moment (`expire_once`). -/
+theorem epoch_ledger_expired (cfg : Cfg) (g d : Nat) (hg : 1 ≤ g) (ops : List Op) :
+    ∀ e ∈ (reach cfg (St.init g d) ops).epochs, e.avail = [] → ∀ a, amtOf a e.claimed ≤ amtOf a e.total :=
+  fun e he h0 a => by
+    have := (epoch_ledger cfg g d hg ops e he).1 a
+    rw [h0] at this
+    simpa [amtOf] using this
+
+/-- **epoch_ledger, single-asset epochs** — the special case of `epoch_ledger` for a live epoch that holds at
+    most one asset (= every epoch of a history without a switch of the distribution asset). -/
 theorem epoch_ledger_single_asset (cfg : Cfg) (g d : Nat) (hg : 1 ≤ g) (ops : List Op) :
     ∀ e ∈ (reach cfg (St.init g d) ops).epochs, e.avail ≠ [] → e.total.length ≤ 1 →
       ∀ a, amtOf a e.claimed + amtOf a e.avail = amtOf a e.total :=
-  fun e he hne h1 a => ((epoch_ledger cfg g d hg ops e he hne).2 a).2 (Or.inr (Or.inr h1))
+  fun e he hne _ a => ((epoch_ledger cfg g d hg ops e he).2 hne).2.2.2 a
 
 /-- the clause of the property as stated, at full strength for every asset of every live epoch -/
 def EpochLedgerPerAsset : Prop :=
   ∀ (cfg : Cfg) (g d : Nat), 1 ≤ g → ∀ (ops : List Op), ∀ e ∈ (reach cfg (St.init g d) ops).epochs,
     e.avail ≠ [] → ∀ a, amtOf a e.claimed + amtOf a e.avail = amtOf a e.total
+
+/-- **epoch_ledger_per_asset** — the clause as stated HOLDS: every asset of every live epoch, multi-asset
+    epochs included (before the fix of `claim` this was refuted, `epoch_ledger_per_asset_fails`). -/
+theorem epoch_ledger_per_asset : EpochLedgerPerAsset :=
+  fun cfg g d hg ops e he hne a => ((epoch_ledger cfg g d hg ops e he).2 hne).2.2.2 a
 
 /-- **expire_once** (the step) — when a new epoch is created: the epoch that leaves the grace window
     (position `grace-1` of the newest-first list, if there are that many) hands over exactly its
@@ -161,38 +171,35 @@ theorem joint_histories (cfg : Feeflow.Cfg) (s : Feeflow.St) (hI : Inv s.d) (ops
   have hI' := reach_inv cfg.d dops s.d hI
   exact ⟨fun e he hne => ledgerClause_of_ok (hI'.ledger e he) hne, hI'.outside, hI'.holds⟩
 
-/-- **payout_eq_ledger_delta** — a successful claim pays, in every asset, exactly what the ledgers lose:
-    the sum of `available` falls by the payout, the contract balance falls by it, the sum of `claimed`
-    never falls and rises by AT MOST the payout — by exactly the payout when every epoch holds at most one
-    asset (see the finding in the header for the rest) —, and no epoch is added, removed or re-funded. -/
+/-- **payout_eq_ledger_delta** — a successful claim pays, in EVERY asset, exactly what the ledgers move: the
+    sum of `available` falls by the payout, the sum of `claimed` rises by the payout (multi-asset epochs
+    included), the contract balance falls by it, each asset is paid with one message, and no epoch is added,
+    removed or re-funded. -/
 theorem payout_eq_ledger_delta (s s' : St) (hL : AllLedger s.epochs) (u : Nat) (view : Option Nat)
     (ans : Nat → LairAns) (paid : Ledger) (h : claim s u view ans = .ok (s', paid)) :
     (∀ a, amtOf a paid + sumAvail a s'.epochs = sumAvail a s.epochs) ∧
-    (∀ a, sumClaimed a s.epochs ≤ sumClaimed a s'.epochs ∧
-          sumClaimed a s'.epochs ≤ sumClaimed a s.epochs + amtOf a paid) ∧
-    ((∀ e ∈ s.epochs, e.total.length ≤ 1) → ∀ a, sumClaimed a s'.epochs = sumClaimed a s.epochs + amtOf a paid) ∧
+    (∀ a, sumClaimed a s'.epochs = sumClaimed a s.epochs + amtOf a paid) ∧
     (∀ a, s'.bal a + amtOf a paid = s.bal a) ∧
     (keys paid).Nodup ∧
     s'.epochs.map (·.id) = s.epochs.map (·.id) ∧ s'.epochs.map (·.total) = s.epochs.map (·.total) ∧
     s'.grace = s.grace ∧ s'.dist = s.dist := by
   obtain ⟨b, top, rest, es', bal', _, _, hw, hp, hs'⟩ := claim_spec h
-  obtain ⟨i1, i2, i3, i3', i4, _, i5', _, _, _, i9⟩ := claimWalk_spec ans b s.grace s.epochs [] es' paid hL hw
+  obtain ⟨i1, _, i3, i4, _, i5', _, _, _, i9⟩ := claimWalk_spec ans b s.grace s.epochs [] es' paid hL hw
   subst hs'
-  refine ⟨fun a => ?_, fun a => ⟨i2 a, ?_⟩, fun h1 a => ?_, fun a => payAll_spec _ _ _ hp a,
-    i9 (by simp [keys]), i4, i5', rfl, rfl⟩
+  refine ⟨fun a => ?_, fun a => ?_, fun a => payAll_spec _ _ _ hp a, i9 (by simp [keys]), i4, i5', rfl, rfl⟩
   · have := i1 a; simp only [amtOf] at this; simp only; omega
   · have := i3 a; simp only [amtOf] at this; simp only; omega
-  · have := i3' h1 a; simp only [amtOf] at this; simp only; omega
 
-/-- the same over all histories from instantiation (where the hypothesis on the ledgers always holds) -/
+/-- the same over all histories from instantiation (where the hypothesis on the ledgers always holds):
+    per asset, payout = decrease of `available` = decrease of the balance = increase of `claimed` -/
 theorem payout_eq_ledger_delta_hist (cfg : Cfg) (g d : Nat) (hg : 1 ≤ g) (ops : List Op) (u : Nat)
     (view : Option Nat) (ans : Nat → LairAns) (s' : St) (paid : Ledger)
     (h : claim (reach cfg (St.init g d) ops) u view ans = .ok (s', paid)) (a : Nat) :
     amtOf a paid + sumAvail a s'.epochs = sumAvail a (reach cfg (St.init g d) ops).epochs ∧
     s'.bal a + amtOf a paid = (reach cfg (St.init g d) ops).bal a ∧
-    sumClaimed a s'.epochs ≤ sumClaimed a (reach cfg (St.init g d) ops).epochs + amtOf a paid := by
+    sumClaimed a s'.epochs = sumClaimed a (reach cfg (St.init g d) ops).epochs + amtOf a paid := by
   have hp := payout_eq_ledger_delta _ s' (reach_inv cfg ops _ (inv_init g d hg)).ledger u view ans paid h
-  exact ⟨hp.1 a, hp.2.2.2.1 a, (hp.2.1 a).2⟩
+  exact ⟨hp.1 a, hp.2.2.1 a, hp.2.1 a⟩
 
 /-- every epoch a claim modifies lies strictly above the address's bound (its last claimed epoch, else
     the epoch it first bonded in) and at or below its new last-claimed epoch -/
@@ -201,7 +208,7 @@ theorem claim_changes_above_bound (s s' : St) (hI : Inv s) (u : Nat) (view : Opt
     ∃ b top, claimBound s u view = some b ∧ lookup u s'.last = some top ∧
       ∀ e, Changed s s' e → b < e.id ∧ e.id ≤ top := by
   obtain ⟨b, top, rest, es', bal', hb, hcl, hw, _, hs'⟩ := claim_spec h
-  obtain ⟨_, _, _, _, _, _, _, _, _, i8, _⟩ := claimWalk_spec ans b s.grace s.epochs [] es' paid hI.ledger hw
+  obtain ⟨_, _, _, _, _, _, _, _, i8, _⟩ := claimWalk_spec ans b s.grace s.epochs [] es' paid hI.ledger hw
   subst hs'
   refine ⟨b, top, hb, lookup_setLast_same _ _ _, ?_⟩
   intro e he
@@ -340,13 +347,14 @@ example : ∃ s₁ p₁ s₃ p₃, claim (reach cfg0 (St.init 2 2) (hist0.take 1
     asset 1 (a stranger, 9, is refused).  Epoch 2 receives 300 of asset 1.  Epoch 3 (inflow 40 of asset 1):
     epoch 1 leaves the window and its 500 of asset 2 are rolled into epoch 3 next to the 40 of asset 1 —
     nothing drops out of the ledgers.  User 2 then claims half of epochs 3 and 2: paid 170 of asset 1 and
-    250 of asset 2. -/
+    250 of asset 2, and epoch 3 — a TWO-ASSET epoch — records BOTH rewards as claimed. -/
 def hist1 : List Op :=
   [ .newEpoch 1000 (some 1000), .claim 1 (some 0) half, .setDist 9 1, .setDist 7 1, .newEpoch 1100 (some 300),
     .newEpoch 1200 (some 40), .claim 2 (some 0) half ]
 
 example : (reach cfg0 (St.init 2 2) hist1).epochs =
-    [ { id := 3, start := 1200, total := [(1, 40), (2, 500)], avail := [(1, 20), (2, 250)], claimed := [(1, 20)] },
+    [ { id := 3, start := 1200, total := [(1, 40), (2, 500)], avail := [(1, 20), (2, 250)],
+        claimed := [(1, 20), (2, 250)] },
       { id := 2, start := 1100, total := [(1, 300)], avail := [(1, 150)], claimed := [(1, 150)] },
       { id := 1, start := 1000, total := [(2, 1000)], avail := [], claimed := [(2, 500)] } ] := by decide
 
@@ -358,16 +366,33 @@ example : (reach cfg0 (St.init 2 2) hist1).dist = 1 ∧
 example : ((claim (reach cfg0 (St.init 2 2) (hist1.take 6)) 2 (some 0) half).toOption.map (·.2)) =
     some [(1, 170), (2, 250)] := by decide
 
-/-- **the finding** — "claimed + available = total for each asset" fails in the code (and therefore in
-    the model, which the correspondence run ties to it) for an epoch holding several assets: after
-    `hist1`, epoch 3 has paid 250 of its 500 of asset 2, but its `claimed` ledger `[(1, 20)]` has no
-    entry for asset 2: 0 + 250 ≠ 500. -/
-theorem epoch_ledger_per_asset_fails : ¬ EpochLedgerPerAsset := by
-  intro h
-  have := h cfg0 2 2 (by decide) hist1
-    { id := 3, start := 1200, total := [(1, 40), (2, 500)], avail := [(1, 20), (2, 250)], claimed := [(1, 20)] }
-    (by decide) (by decide) 2
-  revert this
-  decide
+/-- the two-asset epoch of `hist1` is a live multi-asset instance of `epoch_ledger`: for both assets
+    `claimed + available = total` (20 + 20 = 40 and 250 + 250 = 500) — this is the state that refuted the
+    clause before `claim` recorded every asset. -/
+example : ∃ e ∈ (reach cfg0 (St.init 2 2) hist1).epochs, e.total.length = 2 ∧ e.avail ≠ [] ∧
+    amtOf 1 e.claimed = 20 ∧ amtOf 2 e.claimed = 250 ∧
+    amtOf 1 e.claimed + amtOf 1 e.avail = amtOf 1 e.total ∧
+    amtOf 2 e.claimed + amtOf 2 e.avail = amtOf 2 e.total :=
+  ⟨{ id := 3, start := 1200, total := [(1, 40), (2, 500)], avail := [(1, 20), (2, 250)],
+     claimed := [(1, 20), (2, 250)] }, by decide, by decide, by decide, by decide, by decide, by decide, by decide⟩
+
+/-- `payout_eq_ledger_delta` on that claim: per asset the payout (170 / 250) is the increase of the sum of
+    `claimed` and the decrease of the sum of `available`. -/
+example : ∃ s' paid, claim (reach cfg0 (St.init 2 2) (hist1.take 6)) 2 (some 0) half = .ok (s', paid) ∧
+    paid = [(1, 170), (2, 250)] ∧
+    sumClaimed 1 s'.epochs = sumClaimed 1 (reach cfg0 (St.init 2 2) (hist1.take 6)).epochs + 170 ∧
+    sumClaimed 2 s'.epochs = sumClaimed 2 (reach cfg0 (St.init 2 2) (hist1.take 6)).epochs + 250 ∧
+    sumAvail 2 s'.epochs + 250 = sumAvail 2 (reach cfg0 (St.init 2 2) (hist1.take 6)).epochs :=
+  ⟨_, _, rfl, by decide, by decide, by decide, by decide⟩
+
+/-- ORDER of `claimed`: the assets appear in the order in which they were first PAID, which need not be the
+    order of `total`.  After `hist1.take 6` user 3 has a share of 2 % : of epoch 3 (`[(1, 40), (2, 500)]`) it
+    gets floor(0.8) = 0 of asset 1 (skipped) and 10 of asset 2, so `claimed` starts with asset 2; user 2's
+    half then appends asset 1 behind it. -/
+def tiny : Nat → LairAns := fun _ => .share 20000000000000000
+
+example : ((reach cfg0 (St.init 2 2) (hist1.take 6 ++ [.claim 3 (some 1) tiny, .claim 2 (some 1) half])).epochs.head?.map
+    (fun e => (e.total, e.avail, e.claimed))) =
+    some ([(1, 40), (2, 500)], [(1, 20), (2, 240)], [(2, 260), (1, 20)]) := by decide
 
 end WW.C09
